@@ -23,6 +23,7 @@ Rebase(f, from, to) == to \o Drop(f, Len(from))
 Candidates(rg, rp) ==
   <<Rebase(StdFiles[1], LocalGOROOT, rg), Rebase(StdFiles[2], LocalGOROOT, rg),
     Rebase(GpFiles[1], LocalGOPATH1, rp), Rebase(GpFiles[2], LocalGOPATH1, rp), GpFiles[3],
+    Rebase(GpFiles[4], LocalGOPATH1, rp),   \* a second file of the directory of GpFiles[1]: either may be the one that exists locally
     ModFiles[1], ModFiles[2], ModFiles[3],
     <<"S","k","y">>,                 \* unrelated
     <<"R","fa","x">>,                \* a suffix that exists under the local GOROOT/src, but no src in front of it
